@@ -1,3 +1,4 @@
+import NimaVerif.Lemmas.NameAgree
 import NimaVerif.Lemmas.EditScoped
 import NimaVerif.Lemmas.AttrWalk
 /-!
@@ -21,6 +22,8 @@ appears where an operation allocates.
   exact statement, the cases where that is `d` again, and the two ways it is not.
 -/
 namespace Nima.C19
+-- name tokens are compared by spelling in this file (see `NameCmp` in Model/Edit.lean)
+attribute [local instance] NameCmp.spelled
 
 open Node
 
@@ -390,5 +393,21 @@ example : removeValue "@zz".toList (setValue "@zz".toList (.one (.atom "7".toLis
     (.ok (), { exDocNoLet with next := 16 }) :=
   scoped_set_rm_restores_partial exDocNoLet _ "zz".toList "zz".toList _ rfl (by decide) (by decide) (by decide)
     rfl (by decide) rfl rfl rfl (by decide)
+
+/-! ## For the repaired code (`NameCmp.model`, i.e. lookups through `_same_attr_name`)
+
+Everything above is stated for the name comparison by spelling (`NameCmp.spelled`, declared at the head
+of this file). `setValue_model_eq_spelled` / `removeValue_model_eq_spelled` (Lemmas/NameAgree.lean) make
+it a statement about the model of the repaired code under the decidable side condition
+`NameAgree.noSpellingClash d p`: among the name tokens of the document and the keys of the path no two are
+different spellings of one Nix name. The single-operation theorems restated that way (hypotheses about
+lookups keep the comparison by spelling, which is the code's on such inputs): -/
+
+theorem repaired_set_is_spelled (p : Text) (v : ValueArg) (d : Doc) (hns : NameAgree.noSpellingClash d p) :
+    @setValue NameCmp.model p v d = setValue p v d := NameAgree.setValue_model_eq_spelled p v d hns
+
+theorem repaired_rm_is_spelled (p : Text) (d : Doc) (hns : NameAgree.noSpellingClash d p) :
+    @removeValue NameCmp.model p d = removeValue p d := NameAgree.removeValue_model_eq_spelled p d hns
+
 
 end Nima.C19
